@@ -11,6 +11,36 @@ import (
 	"time"
 )
 
+// contractDirsFor: only the packages whose contract file tags a function with the property;
+// contract files of their dependencies are loaded with them.
+func contractDirsFor(repo, prop string) []string {
+	var out []string
+	for _, d := range contractDirs(repo) {
+		entries, _ := os.ReadDir(filepath.Join(repo, d))
+		hit := false
+		for _, en := range entries {
+			if !strings.HasSuffix(en.Name(), "_verif.go") {
+				continue
+			}
+			data, _ := os.ReadFile(filepath.Join(repo, d, en.Name()))
+			for _, l := range strings.Split(string(data), "\n") {
+				l = strings.TrimSpace(strings.TrimPrefix(strings.TrimSpace(l), "//@"))
+				if strings.HasPrefix(l, "props ") {
+					for _, f := range strings.Fields(strings.ReplaceAll(l[6:], ",", " ")) {
+						if f == prop {
+							hit = true
+						}
+					}
+				}
+			}
+		}
+		if hit {
+			out = append(out, d)
+		}
+	}
+	return out
+}
+
 func contractDirs(repo string) []string {
 	seen := map[string]bool{}
 	filepath.WalkDir(repo, func(p string, d fs.DirEntry, err error) error {
